@@ -66,6 +66,20 @@ P("C09", "split, tokenize and replace partition the text exactly; join inverts s
               "thorough": "split: subjects len<=7 x separators len<=3 over {a,b,A,',',';',NUL} x max in {0,1,2,SIZE_MAX} x {cs,ci}; replace: subjects len<=6 x patterns len<=2 x 9 replacements x {cs,ci}"},
   dbits={"quick": 24, "thorough": 27})
 
+P("C06", "comparison is a total order; operators, overloads and hashes agree with it", "order",
+  level_text=("runtime monitoring: every compare/compare_n/compare_i/compare_ni overload, the operators, less_i/equal_i, hash/hash_i and to_upper/to_lower run under "
+              "ASan+UBSan on all ordered pairs of short strings over a 14-byte boundary alphabet (incl. 0x00 and bytes >= 0x80) and are checked against an unsigned lexicographic "
+              "reference (sign, antisymmetry, zero-iff-equal, fold-equivalence), transitivity is checked on all triples, the four buffer element types the same way, and the huge "
+              "length differences (2^31..2^63) through the static pointer+length compare"),
+  technique="differential runtime monitoring against a reference order + algebraic law monitors (antisymmetry, transitivity, overload agreement) under ASan+UBSan",
+  rule=("cases are ordered pairs (and triples) of strings/buffers; exhaustive over all strings up to the stated length over the boundary alphabet, plus seeded random pairs with long shared prefixes "
+        "around the small-string limit; distinct counts the distinct left operands / random pairs (each left operand is compared with every right operand); evaluations count individual assertions on library results"),
+  assumptions=["case-insensitive order of bytes >= 0x80 is not fixed by the statement: only antisymmetry, transitivity and zero-iff-fold-equal are required",
+               "buffer element order is std::char_traits<T>::lt; wchar_t values are kept non-negative",
+               "huge lengths are reached only through buffer<T>::compare(ptr,len,ptr,len[,n]) with a short common prefix (no memory of that size exists)"],
+  exhaustive={"quick": "all ordered pairs of strings len<=2 over 14 bytes (211^2) x all prefix limits; ci triples over len<=1; buffers len<=2 per element type",
+              "thorough": "all ordered pairs of strings len<=3 over 14 bytes (2955^2) x all prefix limits; ci triples over len<=2 (211^3); buffers len<=3 per element type"})
+
 _PENDING = "check not registered yet in this revision of /verif (harness under construction; nothing is claimed)"
 for _p in ["C%02d" % i for i in range(1, 21)]:
     if _p not in PROPS:
